@@ -24,6 +24,8 @@ func main() {
 		drive(os.Args[2:])
 	case "replay":
 		replay(os.Args[2:])
+	case "rerun":
+		rerun(os.Args[2:])
 	default:
 		fmt.Fprintln(os.Stderr, "unknown subcommand", os.Args[1])
 		os.Exit(2)
@@ -61,32 +63,28 @@ var drivers = map[string]func(*exec.State, *gen.G, int){
 	"rt": driveRT,
 }
 
-// driveRT: round trips of well-formed values of every kind through every API.
+// driveRT: round trips of random well-formed values of every kind.
 func driveRT(s *exec.State, g *gen.G, n int) {
 	for i := 0; i < n; i++ {
-		v := g.Of(gen.Kinds[i%len(gen.Kinds)])
-		kind := v["k"].(string)
-		s.Reset()
-		s.Build(1, v)
-		s.Marshal(1)
-		s.Size(1)
-		s.Header(1)
-		s.Dest(1)
-		s.String(1)
-		s.Unmarshal(kind, 1, 2)
-		if _, ok := s.Pk[2]; ok {
-			s.Dest(2)
-			s.Marshal(2)
-			s.String(2)
-		}
-		s.Datagram(1, 3)
-		if _, ok := s.Pk[3]; ok {
-			s.Marshal(3)
-		}
+		scriptRT(s, g.Of(gen.Kinds[i%len(gen.Kinds)]))
 	}
 }
 
 func replay(args []string) {
-	fmt.Fprintln(os.Stderr, "replay: not built yet")
-	os.Exit(2)
+	fs := flag.NewFlagSet("replay", flag.ExitOnError)
+	in := fs.String("in", "", "behaviour file (one JSON object per line)")
+	out := fs.String("out", "/dev/stdout", "event file")
+	_ = fs.Parse(args)
+	f, err := os.Create(*out)
+	if err != nil {
+		panic(err)
+	}
+	w := bufio.NewWriterSize(f, 1<<20)
+	s := exec.New(w)
+	n := replayFile(s, *in)
+	if err := w.Flush(); err != nil {
+		panic(err)
+	}
+	f.Close()
+	fmt.Fprintf(os.Stderr, "VERIF_EVENTS %d\nVERIF_ITEMS %d\n", s.N, n)
 }
